@@ -234,9 +234,27 @@ def _l1_hook(an: Analyzer, node: ast.AST, st: Any) -> bool:
                       for t in (s.targets if isinstance(s, ast.Assign)
                                 else [s.target]))
               for s in node.body)
+    first_round = entails(st.facts, -Lin.sym(an.loop_syms[0]))
     if not inc:
+        # the same branch written as fall-through: `if placed: continue`
+        # followed by the statements that open the new bin
+        if first_round and node.body and isinstance(
+                node.body[-1], ast.Continue) and not node.orelse:
+            for blk in ast.walk(an.cur.node):
+                for fld in ("body", "orelse"):
+                    b = getattr(blk, fld, None)
+                    if isinstance(b, list) and node in b:
+                        rest = b[b.index(node) + 1:]
+                        if any(isinstance(s_, (ast.Assign, ast.AnnAssign,
+                                               ast.AugAssign))
+                               and any(isinstance(t_, ast.Name)
+                                       and t_.id in counters
+                                       for t_ in (s_.targets if isinstance(
+                                           s_, ast.Assign) else [s_.target]))
+                               for s_ in rest):
+                            return "else"     # type: ignore
         return False
-    return entails(st.facts, -Lin.sym(an.loop_syms[0]))
+    return first_round
 
 
 def _analyse(args: tuple[str, str, str]) -> dict[str, Any]:
